@@ -387,6 +387,7 @@ var genScenarios = map[string]func(g *Gen) []scriptStep{
 			subStep(&SubReq{Name: sS0, Topic: sT0, DL: dl(sT1, 1), Retry: retry(time.Second)}),
 			subStep(&SubReq{Name: sS1, Topic: sT0, DL: dl(sT1, 1), Retry: retry(time.Second), Ordered: g.chance(0.3)}),
 			subStep(&SubReq{Name: sS2, Topic: sT1}),
+			opStep(&Op{Kind: "SetDelay", Name: sS2, Delay: 1500 * time.Millisecond}), // forwards honour it like publishes do (C14)
 			pubStep(sT0, "", "k1"), pullStep(sS0, 10), pullStep(sS1, 10), pastLeases(sS0),
 			pullStep(sS0, 10), // dead-letters both messages: first copies arrive on s2
 			func(g *Gen, d *Dump, vnow int64) Action {
@@ -417,9 +418,66 @@ var genScenarios = map[string]func(g *Gen) []scriptStep{
 		}
 		s = append(s, msg(nil), msg(map[string]string{}), msg(map[string]string{"k": "a  b"}), msg(map[string]string{"k": "a b"}),
 			msg(map[string]string{"k": "x\ty1"}), msg(map[string]string{"k": "x y"}), msg(map[string]string{"x": "(", "y": "(5551234"}),
-			msg(map[string]string{"x": "v1", "a b": "1"}), opStep(&Op{Kind: "GetSub", Name: "projects/p/subscriptions/f0"}),
+			msg(map[string]string{"x": "v1", "a b": "1"}),
+			// filters that are not sentences (exotic white space the lexer does not skip, blank): rejected, nothing stored
+			opStep(&Op{Kind: "UpdateSub", Sub: &SubReq{Name: "projects/p/subscriptions/f0", Topic: sT0, Filter: "attributes:x\f"}, Paths: []string{"filter"}}),
+			opStep(&Op{Kind: "UpdateSub", Sub: &SubReq{Name: "projects/p/subscriptions/f1", Topic: sT0, Filter: "\u00a0attributes:x"}, Paths: []string{"filter"}}),
+			opStep(&Op{Kind: "UpdateSub", Sub: &SubReq{Name: "projects/p/subscriptions/f2", Topic: sT0, Filter: " \t"}, Paths: []string{"filter"}}),
+			subStep(&SubReq{Name: "projects/p/subscriptions/f9", Topic: sT0, Filter: "attributes:x\u2003"}),
+			opStep(&Op{Kind: "GetSub", Name: "projects/p/subscriptions/f2"}), opStep(&Op{Kind: "GetSub", Name: "projects/p/subscriptions/f0"}),
 			opStep(&Op{Kind: "GetSub", Name: "projects/p/subscriptions/f1"}), pullStep("projects/p/subscriptions/f0", 20), pullStep("projects/p/subscriptions/f2", 20))
 		return s
+	},
+	// a topic re-created under the name of a deleted one whose subscription still exists: the new
+	// generation starts without subscriptions; the old subscription shows a deleted topic (C12)
+	"topic-recreated": func(g *Gen) []scriptStep {
+		return []scriptStep{
+			opStep(&Op{Kind: "CreateTopic", Name: sT0}),
+			subStep(&SubReq{Name: sS0, Topic: sT0}), subStep(&SubReq{Name: sS1, Topic: sT0, Ordered: true}),
+			opStep(&Op{Kind: "CreateSnap", Name: "projects/p/snapshots/n0", Name2: sS0}),
+			opStep(&Op{Kind: "ListTopicSubs", Name: sT0, Size: 10}),
+			opStep(&Op{Kind: "DeleteTopic", Name: sT0}),
+			opStep(&Op{Kind: "CreateTopic", Name: sT0}),
+			opStep(&Op{Kind: "ListTopicSubs", Name: sT0, Size: 10}), opStep(&Op{Kind: "ListTopicSubs", Name: sT0, Size: 1}),
+			opStep(&Op{Kind: "GetSub", Name: sS0}), opStep(&Op{Kind: "ListSubs", Project: "projects/p", Size: 10}),
+			opStep(&Op{Kind: "ListSnaps", Project: "projects/p", Size: 10}),
+			subStep(&SubReq{Name: sS2, Topic: sT0}),
+			opStep(&Op{Kind: "ListTopicSubs", Name: sT0, Size: 10}),
+			pubStep(sT0, ""), pullStep(sS0, 10), pullStep(sS2, 10),
+		}
+	},
+	// the expiration policy raised, then idle for longer than the old TTL but less than the new
+	// one: the expiry sweep must leave the subscription alone; lowered again, it must go (C14, C17)
+	"ttl-raised": func(g *Gen) []scriptStep {
+		return []scriptStep{
+			opStep(&Op{Kind: "CreateTopic", Name: sT0}),
+			subStep(&SubReq{Name: sS0, Topic: sT0, HasExp: true, TTL: dptr(10 * time.Minute)}),
+			subStep(&SubReq{Name: sS1, Topic: sT0, HasExp: true, TTL: dptr(10 * time.Minute)}),
+			opStep(&Op{Kind: "UpdateSub", Sub: &SubReq{Name: sS0, Topic: sT0, HasExp: true, TTL: dptr(time.Hour)}, Paths: []string{"expiration_policy"}}),
+			opStep(&Op{Kind: "GetSub", Name: sS0}),
+			advStep(20 * time.Minute),
+			opStep(&Op{Kind: "Job", Job: "ExpireSubs", MaxN: 100}),
+			opStep(&Op{Kind: "GetSub", Name: sS0}), opStep(&Op{Kind: "GetSub", Name: sS1}),
+			opStep(&Op{Kind: "UpdateSub", Sub: &SubReq{Name: sS0, Topic: sT0, HasExp: true, TTL: dptr(45 * time.Second)}, Paths: []string{"expiration_policy"}}),
+			advStep(2 * time.Minute),
+			opStep(&Op{Kind: "Job", Job: "ExpireSubs", MaxN: 100}),
+			opStep(&Op{Kind: "GetSub", Name: sS0}),
+		}
+	},
+	// two deleted topics, one still named by a live subscription's dead-letter policy (kept), one
+	// not: pruned with batch size ONE the job must still get to the one it may remove (C15)
+	"prune-topics-batch-one": func(g *Gen) []scriptStep {
+		job := func() scriptStep { return opStep(&Op{Kind: "Job", Job: "PruneDeletedTopics", MaxN: 1, MinAge: time.Second}) }
+		return []scriptStep{
+			opStep(&Op{Kind: "CreateTopic", Name: sT0}), opStep(&Op{Kind: "CreateTopic", Name: sT1}),
+			opStep(&Op{Kind: "CreateTopic", Name: "projects/p/topics/t2"}), opStep(&Op{Kind: "CreateTopic", Name: "projects/p/topics/t3"}),
+			subStep(&SubReq{Name: sS0, Topic: sT0, DL: dl(sT1, 2)}),
+			subStep(&SubReq{Name: sS1, Topic: sT0, DL: dl("projects/p/topics/t3", 2)}),
+			opStep(&Op{Kind: "DeleteTopic", Name: sT1}), opStep(&Op{Kind: "DeleteTopic", Name: "projects/p/topics/t3"}),
+			opStep(&Op{Kind: "DeleteTopic", Name: "projects/p/topics/t2"}),
+			advStep(5 * time.Second), job(), job(), job(),
+			opStep(&Op{Kind: "ListTopics", Project: "projects/p", Size: 10}), opStep(&Op{Kind: "GetSub", Name: sS0}),
+		}
 	},
 	"ordered-replay": func(g *Gen) []scriptStep {
 		return []scriptStep{
@@ -560,7 +618,7 @@ var genScenarios = map[string]func(g *Gen) []scriptStep{
 	},
 }
 
-var scenarioNames = []string{"ordered-replay", "ordered-prune", "nack-mixed-attempts", "dl-shared-target", "filter-literals", "dl-deleted-topic", "dl-ordered-target", "dl-filtered-target", "snapshot-bystander", "seek-revive-late", "idle-expired-live", "filter-replaced", "ordered-chain", "lease-changes"}
+var scenarioNames = []string{"ordered-replay", "ordered-prune", "nack-mixed-attempts", "dl-shared-target", "filter-literals", "ttl-raised", "prune-topics-batch-one", "dl-deleted-topic", "dl-ordered-target", "dl-filtered-target", "snapshot-bystander", "seek-revive-late", "idle-expired-live", "filter-replaced", "ordered-chain", "lease-changes"}
 
 // scenariosFor lists the templates a generator profile may start with
 func scenariosFor(profile string) []string {
@@ -570,12 +628,12 @@ func scenariosFor(profile string) []string {
 	case "seek":
 		return []string{"seek-revive-late", "ordered-chain", "snapshot-bystander", "ordered-replay"}
 	case "names":
-		return []string{"idle-expired-live"}
+		return []string{"idle-expired-live", "topic-recreated"}
 	case "config":
-		return []string{"filter-replaced", "idle-expired-live", "config-reset-each-field", "filter-literals"}
+		return []string{"filter-replaced", "idle-expired-live", "config-reset-each-field", "filter-literals", "ttl-raised"}
 	case "c15":
 		// no reviving seeks in the paired histories
-		return []string{"ordered-prune", "dl-shared-target", "dl-deleted-topic", "dl-ordered-target", "dl-filtered-target", "idle-expired-live", "filter-replaced"}
+		return []string{"ordered-prune", "prune-topics-batch-one", "dl-shared-target", "dl-deleted-topic", "dl-ordered-target", "dl-filtered-target", "idle-expired-live", "filter-replaced"}
 	}
 	return nil
 }
